@@ -40,7 +40,7 @@ func vMergeCfg(prefix, idBase string, nDocs int, second bool, focus string) gCfg
 				fields[i].always = true
 			}
 		}
-		return gCfg{prefix: prefix, idBase: idBase, nDocs: nDocs, wide: -1, maxAP: 1, symTyp: true, storeAll: vParam("storeAll", 0) == 1, fields: fields}
+		return gCfg{prefix: prefix, idBase: idBase, nDocs: nDocs, wide: -1, maxAP: 1, symTyp: vParam("symTyp", 1) == 1, fixAP: vParam("fixAP", 0) == 1, storeAll: vParam("storeAll", 0) == 1, fields: fields}
 	}
 	fields = []gField{{name: "f", terms: []string{"", "a"}, tv: true, maxLocs: 1, dv: true}}
 	if second {
